@@ -132,6 +132,23 @@ def run(ctx, model_ok):
                 ctx.failing.append({'input': {'kind': 'hash-seed', 'key': m[0], 'first': m[1], 'last': m[2]},
                                     'expected': {'PYTHONHASHSEED=0': txt(a)}, 'actual': {'PYTHONHASHSEED=' + seed: txt(b)},
                                     'why': 'the rendering changes with the string-hash seed of the host interpreter'})
+    # the C data model of the host (a 32-bit `long`): rows with signed / sized conversions, words around 2^31 and 2^63
+    cm = []
+    for r in R.rows:
+        if r[1] in R.code_of and any(t in R.toks_text(r[1]) for t in ('TSDec', 'TSHex', 'RS64', 'RS32')) and 'host:' not in R.toks_text(r[1]):
+            for w in (2 ** 31, 2 ** 32 + 7, 2 ** 63 + 5, 2 ** 64 - 1):
+                first = dc.in_domain_first(R, r[1], rng)
+                first = [w if not isinstance(x, str) and i not in R.enum_words(r[1]) else x for i, x in enumerate(first)]
+                cm.append((r[1], first, [0, w, 0, 0], 7, [(5, b'/p')] if R.uses_paths(r[1]) else [], []))
+    c0 = dc.run_windows(R, cm)['results']
+    c1 = dc.run_windows(R, cm, ilp32=True)['results']
+    ctx.evaluations += 2 * len(cm)
+    for m, a, b in zip(cm, c0, c1):
+        ctx.count('c-data-model')
+        if a != b:
+            ctx.failing.append({'input': {'kind': 'c-data-model', 'key': m[0], 'first': m[1], 'last': m[2]},
+                                'expected': {'on this host (64-bit long)': txt(a)}, 'actual': {'with a 32-bit long': txt(b)},
+                                'why': 'the rendering changes with the C data model of the host (ctypes.c_long and friends)'})
     # optional third-party modules a host may or may not have (stand-in: tools/harness/stubs): the formatted lines do not
     # change with their presence
     import os
